@@ -2,6 +2,7 @@ package main
 
 import (
 	"encoding/json"
+	"math/big"
 	"fmt"
 	"os"
 	"os/exec"
@@ -119,4 +120,60 @@ func lastLines(s string, n int) string {
 		ls = ls[len(ls)-n:]
 	}
 	return strings.Join(ls, "\n")
+}
+
+// witness replays ONE passing path natively: a model of the path condition of a finished path is turned into an
+// assignment and the same harness entry is run by the Go compiler's build of the real code; every assertion must hold
+// there too (translator / model validation, DESIGN 5.2). Returns (ran, ok, tail).
+func witness(st *State, model map[string]*big.Int, dir, modDir, pkgPat, pkgName, entry string, overlay map[string]string) (bool, string) {
+	v := &Violation{Label: "", State: st, Model: model}
+	os.MkdirAll(dir, 0755)
+	cePath := filepath.Join(dir, "ce.json")
+	if err := writeCE(v, cePath); err != nil {
+		return false, err.Error()
+	}
+	test := fmt.Sprintf(`package %s
+
+import (
+	"fmt"
+	"strings"
+	"testing"
+)
+
+func TestVerifWitness(t *testing.T) {
+	defer func() {
+		r := recover()
+		if r == nil {
+			t.Logf("WITNESS-OK")
+			return
+		}
+		if s := fmt.Sprint(r); strings.HasPrefix(s, "VERIF-ASSERT") {
+			t.Fatalf("WITNESS-MISMATCH: %%s", s)
+		}
+		if fmt.Sprintf("%%T", r) == "zzverif.skip" {
+			t.Logf("WITNESS-SKIPPED (assumption not met natively)")
+			return
+		}
+		t.Fatalf("WITNESS-MISMATCH: panic %%v", r)
+	}()
+	%s()
+}
+`, pkgName, entry)
+	testPath := filepath.Join(dir, "zz_verif_witness_test.go")
+	os.WriteFile(testPath, []byte(test), 0644)
+	pkgDir := filepath.Join(modDir, strings.TrimPrefix(pkgPat, "./"))
+	ov := map[string]map[string]string{"Replace": {filepath.Join(pkgDir, "zz_verif_witness_test.go"): testPath}}
+	for k, val := range overlay {
+		ov["Replace"][k] = val
+	}
+	ob, _ := json.MarshalIndent(ov, "", " ")
+	ovPath := filepath.Join(dir, "overlay.json")
+	os.WriteFile(ovPath, ob, 0644)
+	cmd := exec.Command("timeout", "600", "go", "test", "-vet=off", "-count=1", "-overlay", ovPath, "-run", "TestVerifWitness", "-v", pkgPat)
+	cmd.Dir = modDir
+	cmd.Env = append(os.Environ(), "GOFLAGS=-mod=mod", "GOPROXY=off", "GOSUMDB=off", "GOTOOLCHAIN=local", "VERIF_ASSIGNMENT="+cePath)
+	out, err := cmd.CombinedOutput()
+	os.WriteFile(filepath.Join(dir, "witness.log"), out, 0644)
+	ok := err == nil && (strings.Contains(string(out), "WITNESS-OK") || strings.Contains(string(out), "WITNESS-SKIPPED"))
+	return ok, lastLines(string(out), 6)
 }
